@@ -760,6 +760,102 @@ def size_cases(rng, tier):
     return out
 
 
+# ------------------------------------------------------------------------------------------
+# names reached through long chains of compression pointers
+# ------------------------------------------------------------------------------------------
+def nested_family_cases(rng, tier):
+    """b: records whose names each extend an earlier one by one label (l1.l0.zone, l2.l1.l0.zone, ...):
+    the writer emits "one label + pointer to the previous name", so the name of depth d is reached
+    through d chained pointers; owner names and the name fields of NS CNAME PTR MX SOA"""
+    out = []
+    depths = list(range(1, 41)) if tier != "quick" else [1, 2, 3, 5, 8, 9, 10, 11, 12, 13, 16, 20, 25, 32, 40]
+    for depth in depths:
+        for how in (("owner", "rdata", "both", "soa") if tier != "quick" else (rng.choice(["owner", "both"]), rng.choice(["rdata", "soa"]))):
+            zone = rng.choice([b"zone", b"example.com", b"z"])
+            labs = [bytes([97 + (i * 7 + depth) % 26]) + (b"%d" % i if rng.random() < 0.5 else b"") for i in range(depth + 1)]
+            names = []
+            cur = zone
+            for l in labs:
+                cur = l + b"." + cur
+                names.append(cur)
+            units = ["q,%s,%d,1" % (zone.hex(), rng.choice([1, 2, 15, 255]))]
+            for i in range(depth):
+                n, nxt = names[i], names[i + 1]
+                if how == "owner":
+                    units.append("r,1,%s,1,1,60,101=%s" % (n.hex(), bytes([10, 0, i & 255, 1]).hex()))
+                elif how == "rdata":
+                    t, key = rng.choice([(2, 201), (5, 501), (12, 1201)])
+                    units.append("r,%d,%s,%d,1,60,%d=s%s" % (rng.choice([1, 2]), zone.hex(), t, key, n.hex()))
+                elif how == "both":
+                    if i % 2 == 0:
+                        units.append("r,1,%s,15,1,60,1501=%d,1502=s%s" % (n.hex(), i, nxt.hex()))
+                elif how == "soa":
+                    if i % 2 == 0:
+                        units.append("r,2,%s,6,1,60,601=s%s,602=s%s,603=1,604=2,605=3,606=4,607=5" % (zone.hex(), n.hex(), nxt.hex()))
+            head = "b:%d:0:0:0" % (depth & 0xFFFF) + rng.choice(["", ":0", ":5"])
+            out.append(head + "|" + ";".join(units))
+    return out
+
+
+def pointer_depth_cases(rng, tier):
+    """p: hand-built valid messages in which the owner name of RR i is one label followed by a pointer to
+    the owner name of RR i-1 (every pointer strictly backwards): RR L is reached through L pointers"""
+    out = []
+    lens = list(range(1, 127)) if tier != "quick" else list(range(1, 25)) + [31, 32, 33, 48, 63, 64, 65, 100, 125, 126]
+    for L in lens:
+        b = bytearray()
+        b += be16(rng.randrange(65536)) + be16(0x8180) + be16(1) + be16(L) + be16(0) + be16(0)
+        zpos = len(b)
+        b += b"\1z\0" + be16(1) + be16(1)
+        prev = zpos
+        for i in range(L):
+            here = len(b)
+            b += bytes([1, 97 + i % 26]) + be16(0xC000 | prev)
+            b += be16(1) + be16(1) + be32(60) + be16(4) + bytes([192, 0, 2, i & 255])
+            prev = here
+        out.append(pcase(rng, bytes(b), 0))
+        if L in (9, 10, 11, 12, 126):
+            # the same chain inside RDATA: NS records whose target extends the previous target
+            b = bytearray()
+            b += be16(rng.randrange(65536)) + be16(0x8180) + be16(1) + be16(L) + be16(0) + be16(0)
+            b += b"\1z\0" + be16(2) + be16(1)
+            prev = 12
+            for i in range(L):
+                b += be16(0xC00C) + be16(2) + be16(1) + be32(60) + be16(4)
+                here = len(b)
+                b += bytes([1, 97 + i % 26]) + be16(0xC000 | prev)
+                prev = here
+            out.append(pcase(rng, bytes(b), 0))
+    return out
+
+
+def rcode_cases(rng, tier):
+    """p: valid responses carrying every RCODE the library knows and the boundaries of the 12 bit
+    space: header nibble and (with an OPT RR) the extended-RCODE octet; also without OPT"""
+    out = []
+    rcodes = list(range(0, 26)) + [31, 32, 255, 256, 257, 4079, 4080, 4094, 4095]
+    if tier != "quick":
+        rcodes = sorted(set(rcodes + list(range(0, 4096, 16)) + list(range(4080, 4096))))
+
+    def msg(nibble, ext, with_opt, opt_first):
+        b = bytearray()
+        nan = 1
+        b += be16(rng.randrange(65536)) + be16(0x8180 | nibble) + be16(1) + be16(nan) + be16(0) + be16(1 if with_opt else 0)
+        b += b"\1r\2rc\0" + be16(1) + be16(1)
+        a = be16(0xC00C) + be16(1) + be16(1) + be32(60) + be16(4) + bytes([192, 0, 2, 1])
+        o = b"\0" + be16(41) + be16(1232) + bytes([ext, 0]) + be16(rng.choice([0, 0x8000])) + be16(0)
+        if with_opt and opt_first:
+            # OPT ahead of the answer is not possible within sections; keep the order of sections
+            pass
+        b += a + (o if with_opt else b"")
+        return bytes(b)
+    for rc in rcodes:
+        out.append(pcase(rng, msg(rc & 15, rc >> 4, True, False), 0))
+    for nibble in range(16):
+        out.append(pcase(rng, msg(nibble, 0, False, False), 0))
+    return out
+
+
 def pcase(rng, data, flags=None):
     f = rng.choice(PARSE_FLAGS) if flags is None else flags
     return "p:%d|%s" % (f, data.hex())
@@ -811,6 +907,8 @@ def gen(rng, tier, n):
                 out.append(pcase(rng, d, f))
     out += pointer_chain_cases(rng, tier)
     out += overread_cases(rng, tier)
+    out += pointer_depth_cases(rng, tier)
+    out += rcode_cases(rng, tier)
     budget = max(0, n - len(out)) if tier != "thorough" else n
     target = len(out) + budget
     # truncation of one generated seed and one repository seed at every offset
@@ -1083,6 +1181,7 @@ def gen_c03(rng, tier, n):
     """the C03 stream"""
     out = []
     out += size_cases(rng, tier)
+    out += nested_family_cases(rng, tier)
     big_budget = 3 if tier == "quick" else 40
     while len(out) < n:
         r = rng.random()
@@ -1111,6 +1210,8 @@ def gen_c03(rng, tier, n):
 def gen_c04(rng, tier, n):
     """the C04 stream: parse flags 0 only, mostly-valid messages dominant, no legacy cases"""
     out = []
+    out += pointer_depth_cases(rng, tier)
+    out += rcode_cases(rng, tier)
     seeds = seed_messages()
     while len(out) < n:
         r = rng.random()
